@@ -69,9 +69,10 @@ class State:
         return not L.fm_unsat(self.cons + L.nonneg_facts(lins))
 
 
-def field_of_place(place, self_local=1):
-    """'buffer' for ((*_1).buffer) style places rooted at self"""
-    if place["l"] != self_local:
+def field_of_place(place, self_local=1, aliases=()):
+    """'buffer' for ((*_1).buffer) style places rooted at self (or at a reborrow of self, e.g. the
+    receiver of an inlined helper)"""
+    if place["l"] != self_local and place["l"] not in aliases:
         return None
     names = [pe["n"] for pe in place["p"] if isinstance(pe, dict) and "f" in pe]
     others = [pe for pe in place["p"] if pe != "deref" and not (isinstance(pe, dict) and "f" in pe)]
@@ -88,6 +89,15 @@ class Interp:
         self.entry_cons = entry_cons
         self.preserve_cache = preserve_cache if preserve_cache is not None else {}
         self.notes = []
+        # locals that are the receiver itself (reborrows / moves of `self`, receivers of inlined helpers)
+        from .core import strip_reborrow
+        self.aliases = set()
+        t1 = fn.locals[1]["t"] if fn.argc >= 1 else None
+        for l in range(fn.argc + 1, len(fn.locals)):
+            lt = fn.locals[l]["t"]
+            if t1 is not None and lt.replace("&mut ", "&").lstrip("&") == t1.replace("&mut ", "&").lstrip("&") and lt.startswith("&"):
+                if strip_reborrow(fn, l)[-1] == 1:
+                    self.aliases.add(l)
         self._vn = {}
         self.probe = None
         self.probes = []
@@ -110,6 +120,11 @@ class Interp:
     def ref_of_operand(self, st, o):
         if o.get("k") in ("copy", "move") and all(pe == "deref" for pe in o["p"]):
             return st.ref.get(o["l"])
+        if o.get("k") in ("copy", "move"):
+            # field of a tuple of slices returned by split_at: (_t.0) / (_t.1)
+            proj = [pe for pe in o["p"] if pe != "deref"]
+            if len(proj) == 1 and isinstance(proj[0], dict) and "f" in proj[0]:
+                return st.ref.get(("tup", o["l"], proj[0]["f"]))
         return None
 
     def len_of_ref(self, st, r):
@@ -151,7 +166,7 @@ class Interp:
                 st.boolv[d] = st.boolv[x["l"]]
         elif k in ("ref", "rawptr"):
             pl = rv["place"]
-            fld = field_of_place(pl)
+            fld = field_of_place(pl, 1, self.aliases)
             if fld in self.tracked:
                 st.ref[d] = ("vec", fld)
             elif all(pe == "deref" for pe in pl["p"]):
@@ -315,6 +330,18 @@ class Interp:
                 if ln is not None:
                     st.ref[d] = ("slice", ln)      # for clone(): a local vector value of that length
             return
+        if p in ("core::slice::<impl [T]>::split_at", "core::slice::<impl [T]>::split_at_mut") and len(args) == 2:
+            base = self.len_of_ref(st, a_ref(0))
+            mid = a_lin(1)
+            if d is not None:
+                st.ref.pop(("tup", d, 0), None)
+                st.ref.pop(("tup", d, 1), None)
+                if mid is not None:
+                    st.ref[("tup", d, 0)] = ("slice", mid)
+                    if base is not None:
+                        st.ref[("tup", d, 1)] = ("slice", L.lin_add(base, mid, -1))
+                        st.cons.append(L.ge(base, mid))      # split_at returned: mid <= len
+            return
         if p in INDEX and len(args) == 2:
             base = self.len_of_ref(st, a_ref(0))
             rng = args[1]
@@ -352,7 +379,7 @@ class Interp:
                         st.vec[r[1]] = L.lin_var(fresh("len_" + r[1]))
                     elif p in CHANGERS:
                         st.vec[r[1]] = L.lin_var(fresh("len_" + r[1]))
-            if a.get("k") in ("copy", "move") and a["l"] == 1 and not a["p"] or self._is_self_reborrow(a):
+            if a.get("k") in ("copy", "move") and (a["l"] == 1 or a["l"] in self.aliases) and not a["p"] or self._is_self_reborrow(a):
                 for f in self.tracked:
                     if not (c.is_local and self.callee_preserves(c, f)):
                         st.vec[f] = L.lin_var(fresh("len_" + f))
